@@ -178,7 +178,7 @@ func runC20(c *eng.Ctx, tier string) {
 				case isF && fr.Is(setecPkg, "Fields", "prefix"):
 					usesPrefix = true
 					parts = append(parts, "Fields.prefix")
-				case isF && fr.Is(setecPkg, "fieldInfo", "secretName"):
+				case isF && fr.Is(setecPkg, "fieldInfo", fieldInfoField(p, "secretName")):
 					usesName = true
 					parts = append(parts, "fieldInfo.secretName")
 				default:
@@ -466,7 +466,7 @@ func c20Types(c *eng.Ctx, parse, apply *ssa.Function) {
 		return out
 	}
 	accepted := typeGlobals(parse, "Type")
-	cases := typeGlobals(apply, "vtype")
+	cases := typeGlobals(apply, fieldInfoField(p, "vtype"))
 	keys := func(m map[string]*ssa.If) []string {
 		var ks []string
 		for k := range m {
@@ -761,7 +761,7 @@ func c20Verb(c *eng.Ctx, parse *ssa.Function) {
 			return
 		}
 		fr, ok := eng.FieldOfAddr(st.Addr)
-		if !ok || !fr.Is(setecPkg, "fieldInfo", "isJSON") {
+		if !ok || !fr.Is(setecPkg, "fieldInfo", fieldInfoField(p, "isJSON")) {
 			return
 		}
 		n++
